@@ -154,13 +154,9 @@ theorem foldl_objs' {β : Type} (f : St → β → St) (hf : ∀ s x, (f s x).ob
   | nil => intro s; rfl
   | cons x xs ih => intro s; simp only [List.foldl_cons]; rw [ih, hf]
 
-theorem rulePhase2_objs (bRules : List Rule) (inserts : List InsGroup) (st : St) :
-    (rulePhase2 st bRules inserts).objs = st.objs := by
-  unfold rulePhase2
-  apply foldl_objs'
-  intro s g
-  apply foldl_objs'
-  intro s ru
+theorem insertRule_objs (anchor : Option String) (s : St) (ru : Rule) :
+    (insertRule anchor s ru).objs = s.objs := by
+  unfold insertRule
   have h1 := adaptGroups_objs s ru.src
   revert h1
   generalize adaptGroups s ru.src = r1
@@ -173,28 +169,26 @@ theorem rulePhase2_objs (bRules : List Rule) (inserts : List InsGroup) (st : St)
   obtain ⟨dst, s2⟩ := r2
   intro h2
   simp only at h2 ⊢
-  split
-  · exact h2.trans h1
-  · exact h2.trans h1
+  cases anchor with
+  | none => exact h2.trans h1
+  | some d => exact h2.trans h1
+
+theorem rulePhase2_objs (bRules : List Rule) (inserts : List InsGroup) (st : St) :
+    (rulePhase2 st bRules inserts).objs = st.objs := by
+  unfold rulePhase2
+  apply foldl_objs'
+  intro s g
+  unfold insertGroup
+  apply foldl_objs'
+  intro s ru
+  exact insertRule_objs g.anchor s ru
 
 theorem rulePhase1_objs (diff : Differ) (fuel : Nat) (a b : Vsys) (aRules bRules : List Rule)
     (rs : List Range) (st : St) :
     (rulePhase1 diff fuel a b aRules bRules rs st).1.objs = st.objs := by
   unfold rulePhase1
   suffices h : ∀ (rs : List Range) (acc : St × Nat × List InsGroup),
-      (rs.foldl (fun (acc : St × Nat × List InsGroup) r =>
-        let (st, delIdx, inserts) := acc
-        match r.kind with
-        | .del =>
-          (st.emitAll ((aRules.extract r.lowA r.highA).map (fun ru => Cmd.delRule ru.name)), r.highA, inserts)
-        | .ins =>
-          let aPos := max r.lowA delIdx
-          let anchor := (aRules[aPos]?).map (·.name)
-          (st, delIdx, inserts ++ [⟨anchor, r.lowB, r.highB⟩])
-        | .eq =>
-          let st := (List.range (r.highA - r.lowA)).foldl (fun st k =>
-            equalize diff fuel st (aRules.getD (r.lowA + k) default) (bRules.getD (r.lowB + k) default)) st
-          (st, delIdx, inserts)) acc).1.objs = acc.1.objs by
+      (rs.foldl (phase1Step diff fuel aRules bRules) acc).1.objs = acc.1.objs by
     exact h rs (st, 0, [])
   intro rs
   induction rs with
@@ -204,10 +198,12 @@ theorem rulePhase1_objs (diff : Differ) (fuel : Nat) (a b : Vsys) (aRules bRules
     obtain ⟨s, d, ins⟩ := acc
     simp only [List.foldl_cons]
     rw [ih]
-    split
-    · rfl
-    · rfl
-    · exact foldl_objs' _ (fun s k => equalize_objs diff fuel s _ _) _ _
+    cases hk : r.kind with
+    | del => rw [phase1Step_del _ _ _ _ _ _ _ _ hk]; rfl
+    | ins => rw [phase1Step_ins _ _ _ _ _ _ _ _ hk]
+    | eq =>
+      rw [phase1Step_eq _ _ _ _ _ _ _ _ hk]
+      exact foldl_objs' _ (fun s k => equalize_objs diff fuel s _ _) _ _
 
 theorem diffRules_objs (diff : Differ) (fuel : Nat) (st : St) (a b : Vsys) (aRules bRules : List Rule) :
     (diffRules diff fuel st a b aRules bRules).objs = st.objs := by
